@@ -31,5 +31,8 @@ pub fn run(ctx: &Ctx) -> &'static str {
         || crate::props::faultsim::strategy(horizon),
         |_| |c: &crate::props::faultsim::Case, o: &mut Obs| crate::props::faultsim::check(c, o, crate::props::faultsim::Which::C04, ctx),
     );
+    if ctx.tier == crate::rt::Tier::Thorough {
+        crate::props::e2e::run(ctx, crate::props::e2e::Phase::RecoveryEligibility, 2);
+    }
     "exploration"
 }
